@@ -136,7 +136,7 @@ def generate(run_index, seed, tier):
         k = kinds[nm]
         can_ref = nm not in referenced
         refs = g.subset(sorted(referenced), 0, 2) if can_ref and k != "ignored" and g.chance(0.6) else []
-        if refs and g.chance(0.2):
+        if refs and g.chance(0.4):
             refs = [refs[0], refs[0]]          # the same reference twice in one template
         if k == "categorical":
             keys = g.sample(g.pick([["go", "stop", "left", "right", "hi", "lo"], ["go", "stop", "left", "right", "hi", "lo"],
